@@ -174,6 +174,14 @@ Crash(p) ==                        \* SIGKILL / power loss: shared files stay as
 TimePasses == UNCHANGED vars     \* builds may take arbitrarily long: the protocol has no timing assumption (the
                                  \* harness ages every artefact by an hour in the middle of a race)
 
+(* scripts/clear-cache.py, run by the user while no build is in progress: the whole cache directory disappears; live
+   interpreters keep the modules they have loaded and may request further forms afterwards *)
+ClearCache ==
+  /\ \A p \in Procs : ~Running(p)
+  /\ \E m \in Srcs : fin[m]["so"] # Absent
+  /\ fin' = [m \in Srcs |-> [f \in Files |-> Absent]]
+  /\ UNCHANGED <<pc, want, priv, readok, loaded, crashes, dead, failed, reqs>>
+
 Restart(p) ==                      \* the slot of a finished process is taken by a fresh interpreter
   /\ pc[p] = "done" /\ reqs[p] < MaxReq
   /\ pc' = [pc EXCEPT ![p] = "idle"]
@@ -183,7 +191,7 @@ Fixed(p)  == MkDir(p) \/ PyxOpen(p) \/ PyxWrite(p) \/ Cythonize(p) \/ Build(p) \
 Leg(p)    == LTrunc(p) \/ LWrite(p) \/ LCy0(p) \/ LCy1(p) \/ LCc0(p) \/ LCc1(p) \/ LLd0(p) \/ LLd1(p)
 Work(p)   == Import1(p) \/ Import2(p) \/ (IF Legacy THEN Leg(p) ELSE Fixed(p))
 
-Next == TimePasses \/ \E p \in Procs : (\E m \in Srcs : Request(p, m)) \/ Work(p) \/ Crash(p) \/ Restart(p)
+Next == TimePasses \/ ClearCache \/ \E p \in Procs : (\E m \in Srcs : Request(p, m)) \/ Work(p) \/ Crash(p) \/ Restart(p)
 
 Spec     == Init /\ [][Next]_vars
 FairSpec == Spec /\ \A p \in Procs : WF_vars(Work(p))
@@ -193,7 +201,8 @@ NoPartialVisible   == \A m \in Srcs : fin[m]["so"] # Partial
 NoInterpreterDeath == dead = {}
 NoFailedRequest    == failed = {}
 LoadedRight        == \A p \in Procs : pc[p] = "done" => loaded[p] = want[p]
-NoOverwrite        == [][\A m \in Srcs : fin[m]["so"] = Complete => fin'[m]["so"] = Complete]_vars
+NoOverwrite        == [][(\A m \in Srcs : fin[m]["so"] = Complete => fin'[m]["so"] = Complete)
+                         \/ (\A m \in Srcs : fin'[m]["so"] = Absent)]_vars       \* ... except by clearing the whole cache
 Recovery           == \A p \in Procs : (pc[p] = "import1") ~> (pc[p] \in {"done", "idle"})
                       \* every started request ends with the module loaded, unless the process is crashed
                       \* (-> idle); with NoFailedRequest/NoInterpreterDeath this excludes error/killed
